@@ -545,10 +545,41 @@ pub fn chain(rng: &mut Rng, base: Tensor<i64>, m0: Arr<i64>, budget: usize, stat
                     let mcur = m.clone();
                     let vv = v.clone();
                     let shape2 = shape.clone();
+                    // Sometimes the owned tensor is stored in a permuted axis order (gap-free,
+                    // but not row-major) with its capacity along the stored axis that is
+                    // logical `axis`.
+                    let permuted_storage = nd >= 2 && cap_axis == axis && rng.chance(1, 3);
+                    let mut q: Vec<usize> = (0..nd).collect();
+                    if permuted_storage {
+                        rng.shuffle(&mut q);
+                        if q.iter().enumerate().all(|(i, x)| i == *x) {
+                            q.reverse();
+                        }
+                    }
+                    if permuted_storage {
+                        op_desc.push_str(&format!(" stored_as_permutation={:?}", q));
+                    }
                     let r = catch(move || {
                         // Build an owned tensor with capacity for appending along `axis`.
                         let mut cap_shape = shape2.clone();
-                        let mut t: Tensor<i64> = if cap_axis == axis {
+                        let mut t: Tensor<i64> = if permuted_storage {
+                            // stored tensor b = logical.permuted(q); logical axis `axis` is stored axis j
+                            let j = q.iter().position(|x| *x == axis).unwrap();
+                            let b = vv.permuted(&q).to_tensor();
+                            let mut b_cap: Vec<usize> = b.shape().to_vec();
+                            b_cap[j] += if with_cap { extra } else { 0 };
+                            let mut t = Tensor::with_capacity(b_cap.as_slice(), j);
+                            if b.shape()[j] > 0 {
+                                t.append(j, &b).expect("append of original");
+                            }
+                            // back to logical axis order: inverse permutation
+                            let mut inv = vec![0usize; q.len()];
+                            for (i, x) in q.iter().enumerate() {
+                                inv[*x] = i;
+                            }
+                            t.permute(&inv);
+                            t
+                        } else if cap_axis == axis {
                             cap_shape[axis] = shape2[axis] + if with_cap { extra } else { 0 };
                             let mut t = Tensor::with_capacity(cap_shape.as_slice(), axis);
                             if shape2[axis] > 0 {
